@@ -218,11 +218,11 @@ func (g *c05Gen) observe(ctx sdk.Context, ids *c04IDs) c05Env {
 	for i, a := range g.w.Assets {
 		ai := c05AInfo{ID: i, Price: "0"}
 		ai.Class, ai.Price, ai.PDec = g.w.oraclePrice(ctx, a.ID)
-		info, err := app.AssetsKeeper.GetStakingAssetInfo(ctx, a.ID)
-		if err != nil {
-			panic(err)
+		dec, ok := g.w.assetDecimals(ctx, a.ID)
+		if !ok {
+			panic("asset not registered: " + a.ID)
 		}
-		ai.Dec = int64(info.AssetBasicInfo.Decimals)
+		ai.Dec = dec
 		e.Assets = append(e.Assets, ai)
 	}
 	// key strings under which rows / opt-ins exist in the operator module
